@@ -90,7 +90,7 @@ Definition match_at (i : nat) (s : mstate) : mres :=
   let s2 := {| cs_ := cs_ s1;
                sb := if p_hasbackrefs prog then repeat None (p_maxparens prog) else sb s1;
                eb := if p_hasbackrefs prog then repeat None (p_maxparens prog) else eb s1;
-               anchored := false; hist := hist s1 |} in
+               anchored := false; hist := [] |} in       (* the memo belongs to one matching attempt *)
   match run (p_op prog) [0] i s2 with
   | LCons q s3 _ => MTrue (set_pend 0 q s3)
   | LNil s3 => MFalse (set_pcount 0 s3)
